@@ -33,12 +33,19 @@ json.dump({"id":"$id","property":"$prop","demo":"$demo","demo_dest":"$dest","dem
 PY
   exit 0
 fi
-# detect
-git -C /repo apply $out/patch.diff || exit 2
+# detect (mode "detect": apply to /repo itself and undo; mode "detect-scratch": a copy of /repo, usable while other runs read /repo)
 tmpv=/tmp/seedverif-$id; rm -rf $tmpv; mkdir -p $tmpv
 cd /verif
-/verif/bin/wpverif -list | xargs -P 10 -I{} sh -c "mkdir -p $tmpv/{}; cp /verif/known_findings.txt $tmpv/{}/; ./bin/wpverif -prop {} -verif $tmpv/{} > $tmpv/{}.out 2>&1"
-git -C /repo checkout -- .
+if [ "$mode" = detect-scratch ]; then
+  rp=/tmp/seedrepo-$id; rm -rf $rp; cp -r /repo $rp; rm -rf $rp/.git
+  (cd $rp && patch -p1 -s -i $out/patch.diff) || exit 2
+  /verif/bin/wpverif -list | xargs -P 6 -I{} sh -c "mkdir -p $tmpv/{}; cp /verif/known_findings.txt $tmpv/{}/; ./bin/wpverif -prop {} -repo $rp -verif $tmpv/{} > $tmpv/{}.out 2>&1"
+  rm -rf $rp
+else
+  git -C /repo apply $out/patch.diff || exit 2
+  /verif/bin/wpverif -list | xargs -P 10 -I{} sh -c "mkdir -p $tmpv/{}; cp /verif/known_findings.txt $tmpv/{}/; ./bin/wpverif -prop {} -verif $tmpv/{} > $tmpv/{}.out 2>&1"
+  git -C /repo checkout -- .
+fi
 detected=""
 for p in $(/verif/bin/wpverif -list); do
   if grep -q "VIOLATION property=$p" $tmpv/$p.out; then
